@@ -6,6 +6,7 @@ mod db;
 mod flock;
 mod image;
 mod iohook;
+mod ovl;
 mod stress;
 mod locksdemo;
 mod util;
@@ -50,6 +51,7 @@ fn main() {
         "alloc-probe" => alloc::run_probe(seed, cases, &mut sink),
         "alloc-lookup" => alloc::run_lookup(seed, cases, &mut sink),
         "wal" => wal::run(seed, cases, &mut sink),
+        "overlay-index" => ovl::run(seed, cases, &mut sink),
         "core-pp" => core_pp::run(seed, cases, &mut sink),
         "core-mp" => core_mp::run(seed, cases, &mut sink),
         "core-mp-corpus" => {
